@@ -24,7 +24,7 @@ REQUIRED = ['core/connection_manager.py:ConnectionManager.open_connection', 'cor
 
 def plan(tier, seed):
     if tier == 'quick':
-        return [{'streams': 8, 'api': 40, 'len': [20, 250]} for _ in range(16)]
+        return [{'streams': 24, 'api': 150, 'len': [20, 250]} for _ in range(16)]
     return [{'streams': 160, 'api': 1200, 'len': [20, 600]} for _ in range(64)]
 
 
